@@ -262,6 +262,20 @@ func jxAttrs(t *simrt.Tape) map[string]interface{} {
 	return m
 }
 
+// jxAttrsReserved is jxAttrs plus, one time in three, an attribute named like
+// one of the format's fixed fields. The fixed field wins on output (the
+// attribute is dropped, also from the caller's map, which is why another
+// attribute always accompanies it: the map must not become empty), so the
+// value still round-trips, and the fixed fields must not be replaced.
+func jxAttrsReserved(t *simrt.Tape, reserved []string) map[string]interface{} {
+	m := jxAttrs(t)
+	if m != nil && t.Choose(simrt.KWorkload, 3) == 2 {
+		m["zz-other"] = 1.0
+		m[reserved[t.Choose(simrt.KValue, len(reserved))]] = jxVal(t, 1)
+	}
+	return m
+}
+
 func jxOpt(t *simrt.Tape, n int) bool { return t.Choose(simrt.KWorkload, n) == n-1 }
 
 func jxCytoPos(t *simrt.Tape) *cytoscapejs.Position {
@@ -408,10 +422,10 @@ func jxRunSigma(c *Ctx) *Violation {
 	if form != 2 {
 		g := &sigmajs.Graph{}
 		for i := 0; i < nn; i++ {
-			g.Nodes = append(g.Nodes, sigmajs.Node{ID: jxID(t, jxJSONStrings, i), Attributes: jxAttrs(t)})
+			g.Nodes = append(g.Nodes, sigmajs.Node{ID: jxID(t, jxJSONStrings, i), Attributes: jxAttrsReserved(t, []string{"id"})})
 		}
 		for i := 0; i < ne; i++ {
-			g.Edges = append(g.Edges, sigmajs.Edge{ID: jxID(t, jxJSONStrings, nn+i), Source: jxID(t, jxJSONStrings, 0), Target: jxID(t, jxJSONStrings, 1), Attributes: jxAttrs(t)})
+			g.Edges = append(g.Edges, sigmajs.Edge{ID: jxID(t, jxJSONStrings, nn+i), Source: jxID(t, jxJSONStrings, 0), Target: jxID(t, jxJSONStrings, 1), Attributes: jxAttrsReserved(t, []string{"id", "source", "target"})})
 		}
 		return jxRun(c, jxSigma, g, nil)
 	}
